@@ -139,7 +139,7 @@ def is_phi(e, name=None):
 
 
 class Walker:
-    def __init__(self, resolver=None, max_paths=4096, inline_depth=0, fold=None, tag=None):
+    def __init__(self, resolver=None, max_paths=4096, inline_depth=0, fold=None, tag=None, keep=None):
         self.resolver = resolver        # (call_expr, self_class) -> (FunctionDef, bound self expr, owner) | None
         self.max_paths = max_paths
         self.inline_depth = inline_depth
@@ -150,6 +150,7 @@ class Walker:
         self.tag = tag                  # call expr -> short label: result becomes a unique symbol
         self.calltab = {}               # symbol id -> tagged call expression
         self._tagn = itertools.count(1)
+        self.keep = set(keep or ())     # callee names that stay calls (never inlined)
 
     # ------------------------------------------------------------------ API
     def paths(self, func, bind=None, cls=None, depth=0):
@@ -484,6 +485,8 @@ class Walker:
         returns list of (Path, status, value) or None when not inlined"""
         if self.resolver is None or d >= self.inline_depth:
             return None
+        if (call_name(call) or '').split('.')[-1] in self.keep:
+            return None
         r = self.resolver(call, self.cls, st)
         if r is None:
             return None
@@ -772,7 +775,8 @@ class _Ev:
                 self.st.heap.clear()
             return new
         # single-path repository helper in expression position
-        if self.w.resolver is not None and self.d < self.w.inline_depth and not in_binder and not cond:
+        if self.w.resolver is not None and self.d < self.w.inline_depth and not in_binder and not cond \
+                and (call_name(new) or '').split('.')[-1] not in self.w.keep:
             r = self.w.resolver(new, self.w.cls, self.st)
             if r is not None:
                 fdef, bind_self, owner = r
